@@ -14,16 +14,16 @@ import (
 // bus' own publisher goroutine fans them out, subscriber A consumes until its channel is closed and then
 // unsubscribes (the shape of every consumer goroutine in filters/api.go: `defer cancelSubs()`), subscriber B
 // unsubscribes early, and the main goroutine optionally removes the topic or subscribes again - in every
-// interleaving at synchronisation points with at most 2 preemptions: no goroutine panics (double close, send on a
+// schedule within the delay bound (3 delays w.r.t. the round-robin non-preemptive scheduler; thorough: 4 and 5): no goroutine panics (double close, send on a
 // closed channel, unlock of an unlocked mutex), nothing deadlocks, subscriber A always terminates, no more events
 // are delivered than were published, and the topic is gone once its source is closed.
-func H_C20_4_EventBus() { eventBus(2, false, 1) }
+func H_C20_4_EventBus() { eventBus(3, true, 3) }
 
-// H_C20_4b_EventBusTwoSubscribers (thorough tier): with the early-leaving subscriber B and up to 2 events, 1 preemption.
-func H_C20_4b_EventBusTwoSubscribers() { eventBus(3, true, 1) }
+// H_C20_4b_EventBusTwoSubscribers (thorough tier): the same with delay bound 4.
+func H_C20_4b_EventBusTwoSubscribers() { eventBus(3, true, 4) }
 
-// H_C20_4c_EventBusTwoPreemptions (thorough tier): one subscriber, one event, 2 preemptions.
-func H_C20_4c_EventBusTwoPreemptions() { eventBus(2, false, 2) }
+// H_C20_4c_EventBusTwoPreemptions (thorough tier): one subscriber, 0-1 events, delay bound 5.
+func H_C20_4c_EventBusTwoPreemptions() { eventBus(2, false, 5) }
 
 func eventBus(eventChoices int, withB bool, preemptions int) {
 	verif.Schedule(preemptions)
@@ -103,7 +103,7 @@ func eventBus(eventChoices int, withB bool, preemptions int) {
 // (closeAllSubscribers(name), delete(topics, name)). A topic whose source is open must stay registered and must
 // not have its subscribers closed.
 func H_C20_5_TopicReuse() {
-	verif.Schedule(1)
+	verif.Schedule(4)
 	bus := NewEventBus()
 	src1 := make(chan cmtrpctypes.ResultEvent)
 	verif.Assert("add-topic-succeeds", bus.AddTopic("heads", src1) == nil)
